@@ -5,6 +5,7 @@ hashes) compared after every operation: get / exists, root hash, the tuple retur
 set / delete (path hashes root->leaf), branch(k) and calc_root(k, v, branch(k)) for readable
 keys, from_db over the same database; clearing everything must restore the initial root."""
 import random
+import zlib
 import sys
 
 from trie.smt import SparseMerkleTree, calc_root
@@ -140,6 +141,10 @@ def audit(smt, ref, m, default, ks, probes, ctx):
     ctx.count("audits")
 
 
+class HexLike(bytes):
+    """a subclass of bytes, like hexbytes.HexBytes"""
+
+
 def run_case(case, ctx):
     ks = case["ks"]
     default = unhx(case["default"])
@@ -166,6 +171,11 @@ def run_case(case, ctx):
     for opi, op in enumerate(case["ops"]):
         kb = unhx(op[1])
         k = int.from_bytes(kb, "big")
+        sub = zlib.crc32(repr(op[:3]).encode()) % 4 == 2
+        if sub:
+            # keys and values of a SUBCLASS of bytes (hexbytes.HexBytes style) are byte strings too
+            kb = HexLike(kb)
+            ctx.count("ops_with_bytes_subclass_arguments")
         if case.get("reopen") and (case["pseed"] + opi) % 3 == 0:
             # carry on through a second object opened on the same database and root
             smt = cut(SparseMerkleTree.from_db, db0, smt.root_hash, key_size=ks, default=default)
@@ -177,6 +187,8 @@ def run_case(case, ctx):
                 ctx.count("value_is_an_empty_tree_node")
             else:
                 v = unhx(op[2])
+            if sub:
+                v = HexLike(v)
             ctx.count("op_overwrite" if k in m else "op_set_new")
             if v == b"":
                 ctx.count("op_set_blank_default_nonblank" if default else "op_set_blank_default_blank")
